@@ -13,7 +13,7 @@ def run(ver):
     for alloc, binp in (("TRUE", full), ("FALSE", none)):
         for rich, mt in (("FALSE", maxtok), ("TRUE", richtok)):
             tag = f"mc_c06_alloc{alloc}_rich{rich}"
-            res = core.run_tlc("MC_C06", "MC_C06.cfg", wd, consts={"Alloc": alloc, "MaxTok": mt, "Rich": rich}, tag=tag, timeout=3000, coverage=True)
+            res = core.run_tlc("MC_C06", "MC_C06.cfg", wd, consts={"Alloc": alloc, "MaxTok": mt, "Rich": rich}, tag=tag, timeout=3000, coverage=(ver.tier == "quick"))
             core.tlc_failure(res, tag)
             ver.add_mc(res, f"MC_C06 Alloc={alloc} Rich={rich} MaxTok={mt} (skip step machine refines the item boundary; "
                             "invariants Refines SkipOK SkipAccepts SkipPrefix NoOverrun Bounded WorkLinear)")
